@@ -267,7 +267,7 @@ class Refs:
                 if o["key"] is None or o["st"] not in ("ok", "exc"):
                     continue
                 prev = self.by_key.get(o["key"])
-                cur = {"dg": o["dg"], "st": o["st"], "hdr": o.get("hdr"), "enc": o.get("enc")}
+                cur = {"dg": o["dg"], "st": o["st"], "hdr": o.get("hdr"), "enc": o.get("enc"), "coords": o.get("coords")}
                 if prev is not None and prev["dg"] != cur["dg"]:
                     # two isolated computations of one key disagree: report as a
                     # disagreement of that key (handled by the caller)
@@ -377,11 +377,33 @@ def evaluate(spec, rec, refs):
                     # interrupted attempt) must still give the result: C12's
                     # "can be repeated on the same object with identical results"
                     out.append({"prop": "C12", "clause": "repeat_differs_from_reference", "c": c, "i": i, "op": o["op"], "key": o["key"], "detail": detail})
+            elif o["op"] == "write" and o["st"] == "ok" and coords_differ(ref.get("coords"), o.get("coords")):
+                out.append({"prop": "C14", "clause": "calculated_coordinates_differ", "c": c, "i": i, "op": "write", "key": o["key"], "detail": coords_differ(ref.get("coords"), o.get("coords"))})
             elif o["op"] == "write" and o["st"] == "ok" and refs.hdr_diff(ref.get("hdr"), o.get("hdr")):
                 out.append({"prop": "C14", "clause": "header_differs_outside_timestamp", "c": c, "i": i, "op": "write", "key": o["key"], "detail": refs.hdr_diff(ref.get("hdr"), o.get("hdr"))})
             if (c, i) in flagged:
                 tainted.add(i)
     return out
+
+
+COORD_TOL = float(os.environ.get("VERIF_COORD_TOL", 2e-3))  # calculated (layout) coordinates: numerical noise of the optimiser is not a difference
+
+
+def coords_differ(ref, obs):
+    """Calculated coordinates are compared numerically with a tolerance (they come
+    out of an iterative optimiser); None if they agree."""
+    if ref is None or obs is None:
+        return None
+    if len(ref) != len(obs):
+        return f"{len(obs)} coordinate triples, reference {len(ref)}"
+    for k, (a, b) in enumerate(zip(ref, obs)):
+        for x, y in zip(a, b):
+            if isinstance(x, str) or isinstance(y, str):
+                if x != y:
+                    return f"atom line {k}: {b} vs reference {a}"
+            elif abs(x - y) > COORD_TOL:
+                return f"atom line {k}: calculated coordinates {b}, isolated reference {a}"
+    return None
 
 
 def _short(enc):
